@@ -11,10 +11,12 @@ import (
 	"errors"
 	"fmt"
 	"os"
+	"reflect"
 	"strings"
 	"sync"
 	"testing"
 	"time"
+	"unsafe"
 
 	"verifharness/hx"
 
@@ -29,6 +31,7 @@ import (
 	redisstore "github.com/projecteru2/core/store/redis"
 	"github.com/projecteru2/core/types"
 	clientv3 "go.etcd.io/etcd/client/v3"
+	"go.etcd.io/etcd/client/v3/concurrency"
 )
 
 type cmd struct {
@@ -46,6 +49,7 @@ type kase struct {
 	Helper  string         `json:"helper,omitempty"` // multikey: pod | nodeop
 	NKeys   int            `json:"nkeys,omitempty"`
 	Lose    int            `json:"lose,omitempty"` // multikey: index (acquisition order) of the lock whose lease is revoked
+	CtxDL   int            `json:"ctx_deadline_ms,omitempty"` // the context passed to Lock/TryLock carries this deadline (0: none)
 	Clients int            `json:"clients"`
 	Cmds    []cmd          `json:"cmds"`
 	Impl    map[string]any `json:"impl"`
@@ -74,6 +78,9 @@ type runner struct {
 	started map[int]time.Time       // when the client's Lock call began
 	rcli    *goredis.Client
 	cancels []context.CancelFunc
+	expired map[int]bool               // lease ran out after an orphaned session (no promptness bound applies)
+	actx    map[int]context.Context    // the context passed to the client's Lock/TryLock
+	acancel map[int]context.CancelFunc
 	pending map[int]chan asyncRes
 	leases  map[int]clientv3.LeaseID
 	seen    map[clientv3.LeaseID]bool
@@ -193,6 +200,38 @@ func (r *runner) acquired(c int, rctx context.Context) {
 	r.cancels = append(r.cancels, cancel)
 }
 
+// acquireCtx: the context handed to the client's Lock/TryLock, cancellable by the script and
+// optionally with a deadline (request timeouts shorter than the lock timeout are common in calcium)
+func (r *runner) acquireCtx(c int) context.Context {
+	if x, ok := r.actx[c]; ok {
+		return x
+	}
+	var x context.Context
+	var cancel context.CancelFunc
+	if r.k.CtxDL > 0 {
+		x, cancel = context.WithTimeout(context.Background(), time.Duration(r.k.CtxDL)*time.Millisecond)
+	} else {
+		x, cancel = context.WithCancel(context.Background())
+	}
+	r.actx[c], r.acancel[c] = x, cancel
+	r.cancels = append(r.cancels, cancel)
+	return x
+}
+
+// session digs the etcd session out of an etcdlock.Mutex (test-only; the field is not exported)
+func session(l lock.DistributedLock) *concurrency.Session {
+	v := reflect.ValueOf(l)
+	if v.Kind() != reflect.Ptr || v.Elem().Kind() != reflect.Struct {
+		return nil
+	}
+	f := v.Elem().FieldByName("session")
+	if !f.IsValid() {
+		return nil
+	}
+	s, _ := reflect.NewAt(f.Type(), unsafe.Pointer(f.UnsafeAddr())).Elem().Interface().(*concurrency.Session)
+	return s
+}
+
 func (r *runner) exec(c cmd) (res string, flag string) {
 	ctx := context.Background()
 	ttl := time.Duration(r.k.TTL) * time.Millisecond
@@ -206,9 +245,9 @@ func (r *runner) exec(c cmd) (res string, flag string) {
 		r.started[c.C] = t0
 		var rctx context.Context
 		if c.Op == "lock" {
-			rctx, err = l.Lock(ctx)
+			rctx, err = l.Lock(r.acquireCtx(c.C))
 		} else {
-			rctx, err = l.TryLock(ctx)
+			rctx, err = l.TryLock(r.acquireCtx(c.C))
 		}
 		if err == nil {
 			r.acquired(c.C, rctx)
@@ -233,8 +272,9 @@ func (r *runner) exec(c cmd) (res string, flag string) {
 		ch := make(chan asyncRes, 1)
 		r.asyncStart = time.Now()
 		r.started[c.C] = r.asyncStart
+		actx := r.acquireCtx(c.C)
 		go func() {
-			rctx, err := l.Lock(ctx)
+			rctx, err := l.Lock(actx)
 			ch <- asyncRes{rctx, err}
 		}()
 		select {
@@ -300,6 +340,38 @@ func (r *runner) exec(c cmd) (res string, flag string) {
 	case "sleep":
 		time.Sleep(time.Duration(c.Dt) * time.Millisecond)
 		return "slept", ""
+	case "cancelctx":
+		// the request that took the lock is cancelled / times out while the lock is still held
+		if cancel, ok := r.acancel[c.C]; ok {
+			cancel()
+		}
+		time.Sleep(150 * time.Millisecond) // give a (wrong) release on cancellation time to happen
+		return "done", ""
+	case "expire":
+		// the session's keepalive stops (session orphaned: Done() fires, key and lease stay) and the
+		// lease then runs out by itself
+		l, ok := r.locks[c.C]
+		if !ok || r.cli == nil {
+			return "misuse", ""
+		}
+		ss := session(l)
+		if ss == nil {
+			return "other:no session", ""
+		}
+		r.revoked[c.C] = time.Now()
+		r.expired[c.C] = true
+		ss.Orphan()
+		deadline := time.Now().Add(ttl + 6*time.Second)
+		for time.Now().Before(deadline) { // until the lease is gone
+			rc, cancel := context.WithTimeout(ctx, 2*time.Second)
+			resp, err := r.cli.TimeToLive(rc, ss.Lease())
+			cancel()
+			if err == nil && resp.TTL == -1 { // the lease is gone (not merely due): its keys are deleted
+				return "revoked", ""
+			}
+			time.Sleep(100 * time.Millisecond)
+		}
+		return "other:lease did not expire", ""
 	case "revoke":
 		id, ok := r.leases[c.C]
 		if !ok {
@@ -342,7 +414,7 @@ func (r *runner) exec(c cmd) (res string, flag string) {
 			return "ctx-live", ""
 		}
 		flag := ""
-		if t, ok := r.revoked[c.C]; ok && time.Since(t) > bound {
+		if t, ok := r.revoked[c.C]; ok && time.Since(t) > bound && !r.expired[c.C] {
 			flag = "slow"
 			r.timingOff = true
 		}
@@ -416,7 +488,7 @@ func gen(r *hx.Rng, backend string, loss bool, allowSlow bool) *kase {
 	if backend == "etcd" {
 		k.TTL = hx.Pick(r, 3000, 4000, 2700, 3400) // etcdlock.New uses the ttl as given for the wait timeout
 	} else {
-		k.TTL = hx.Pick(r, 1000, 1000, 2000)
+		k.TTL = hx.Pick(r, 1000, 1000, 2000, 2500, 1200) // incl. TTLs that are not whole seconds
 	}
 	k.Wait = k.TTL
 	if backend == "redis" && !loss && r.Chance(25) { // lock/redis.New with wait timeout != lock TTL
@@ -444,15 +516,29 @@ func gen(r *hx.Rng, backend string, loss bool, allowSlow bool) *kase {
 		if r.Chance(30) { // a try-lock bounces off the live holder
 			add("trylock", fresh(), 0)
 		}
+		viaExpiry := backend == "etcd" && r.Chance(35)
+		if viaExpiry {
+			k.TTL, k.Wait = 2000, 2000
+		} else if backend == "etcd" && r.Chance(45) {
+			// the acquiring contexts carry a deadline shorter than the lock ttl
+			k.TTL, k.Wait = 4000, 4000
+			k.CtxDL = 3900
+		}
 		lose := func() {
 			if backend == "redis" {
 				add("ff", 0, k.TTL+r.Intn(3)*100)
+			} else if viaExpiry {
+				add("expire", a, 0) // keepalive stops, the lease runs out by itself
 			} else {
 				add("revoke", a, 0)
 			}
 		}
 		b := fresh()
-		switch r.Intn(4) {
+		pick := r.Intn(4)
+		if viaExpiry && pick >= 2 {
+			pick = 0 // a waiter's timeout (= ttl) would race with the expiry; let the contender come afterwards
+		}
+		switch pick {
 		case 0: // contender arrives after the loss
 			lose()
 			add(hx.Pick(r, "trylock", "lock"), b, 0)
@@ -496,7 +582,7 @@ func gen(r *hx.Rng, backend string, loss bool, allowSlow bool) *kase {
 	}
 	for i := 0; i < steps && next < 7; i++ {
 		switch x := r.Intn(100); {
-		case x < 30: // lock: on a free key, or (rarely) blocking on a held one
+		case x < 26: // lock: on a free key, or (rarely) blocking on a held one
 			if free() {
 				c := fresh()
 				add("lock", c, 0)
@@ -507,6 +593,10 @@ func gen(r *hx.Rng, backend string, loss bool, allowSlow bool) *kase {
 			} else {
 				add("trylock", fresh(), 0)
 			}
+		case x < 38 && held && !expired:
+			// the request that took the lock ends; the lock stays until Unlock
+			add("cancelctx", holder, 0)
+			add("trylock", fresh(), 0)
 		case x < 50:
 			c := fresh()
 			add("trylock", c, 0)
@@ -522,6 +612,9 @@ func gen(r *hx.Rng, backend string, loss bool, allowSlow bool) *kase {
 			}
 		case x < 84 && backend == "redis":
 			dt := hx.Pick(r, 100, k.TTL/2, k.TTL-1, k.TTL, k.TTL+1)
+			if k.TTL%1000 != 0 && r.Chance(60) { // inside the last fraction of a second of the lease
+				dt = hx.Pick(r, k.TTL/1000*1000, k.TTL/1000*1000+(k.TTL%1000)/2, k.TTL/1000*1000+1)
+			}
 			if k.Wait != k.TTL { // the instants at which a confusion of the two durations shows
 				dt = hx.Pick(r, k.Wait, k.Wait+1, k.TTL-1, k.TTL, k.TTL+1, k.Wait-1)
 			}
@@ -614,6 +707,16 @@ func corpus() []*kase {
 		// wait timeout != lock TTL, both orders
 		{Backend: "redis", TTL: 2000, Wait: 1000, Clients: 3, Cmds: []cmd{{"lock", 0, 0}, {"ff", 0, 1000}, {"trylock", 1, 0}, {"ff", 0, 1000}, {"trylock", 2, 0}, {"unlock", 2, 0}}},
 		{Backend: "redis", TTL: 1000, Wait: 2000, Clients: 3, Cmds: []cmd{{"lock", 0, 0}, {"ff", 0, 1000}, {"trylock", 1, 0}, {"unlock", 1, 0}}},
+		// TTLs that are not whole seconds: a contender inside the last fraction must be refused
+		{Backend: "redis", TTL: 2500, Wait: 2500, Clients: 3, Cmds: []cmd{{"lock", 0, 0}, {"ff", 0, 2250}, {"trylock", 1, 0}, {"ff", 0, 250}, {"trylock", 2, 0}, {"unlock", 2, 0}}},
+		{Backend: "redis", TTL: 1200, Wait: 1200, Clients: 2, Cmds: []cmd{{"trylock", 0, 0}, {"ff", 0, 1100}, {"trylock", 1, 0}, {"unlock", 0, 0}}},
+		// the acquiring context ends while the lock is held: not a release
+		{Backend: "etcd", TTL: 3000, Wait: 3000, Clients: 3, Cmds: []cmd{{"lock", 0, 0}, {"cancelctx", 0, 0}, {"trylock", 1, 0}, {"unlock", 0, 0}, {"trylock", 2, 0}, {"unlock", 2, 0}}},
+		{Backend: "etcd", TTL: 3000, Wait: 3000, Clients: 2, Cmds: []cmd{{"trylock", 0, 0}, {"cancelctx", 0, 0}, {"trylock", 1, 0}, {"unlock", 0, 0}}},
+		{Backend: "redis", TTL: 1000, Wait: 1000, Clients: 2, Cmds: []cmd{{"lock", 0, 0}, {"cancelctx", 0, 0}, {"trylock", 1, 0}, {"unlock", 0, 0}}},
+		// loss by expiry after the keepalive stopped; loss under an acquiring context with a short deadline
+		{Backend: "etcd", TTL: 2000, Wait: 2000, Clients: 2, Cmds: []cmd{{"lock", 0, 0}, {"expire", 0, 0}, {"lock", 1, 0}, {"observe", 0, 0}, {"observe", 1, 0}, {"unlock", 1, 0}, {"unlock", 0, 0}}},
+		{Backend: "etcd", TTL: 4000, Wait: 4000, CtxDL: 3900, Clients: 2, Cmds: []cmd{{"lock", 0, 0}, {"lockasync", 1, 0}, {"revoke", 0, 0}, {"join", 1, 0}, {"observe", 0, 0}, {"unlock", 1, 0}, {"unlock", 0, 0}}},
 		// etcd wait timeouts with a fractional second: release inside the fraction; sub-second timeout
 		{Backend: "etcd", TTL: 2700, Wait: 2700, Clients: 2, Cmds: []cmd{{"lock", 0, 0}, {"lockasync", 1, 0}, {"sleep", 0, fracSleep(2700)}, {"unlock", 0, 0}, {"join", 1, 0}, {"unlock", 1, 0}}},
 		{Backend: "etcd", TTL: 300, Wait: 300, Clients: 2, Cmds: []cmd{{"lock", 0, 0}, {"lockasync", 1, 0}, {"join", 1, 0}, {"unlock", 0, 0}}},
@@ -630,7 +733,7 @@ func isLoss(k *kase) bool {
 		return true
 	}
 	for _, c := range k.Cmds {
-		if c.Op == "observe" || c.Op == "revoke" {
+		if c.Op == "observe" || c.Op == "revoke" || c.Op == "expire" {
 			return true
 		}
 	}
@@ -712,7 +815,8 @@ func TestGen(t *testing.T) {
 	// one execution of a schedule; reports whether it should be re-run (environment perturbation)
 	runOnce := func(i int, k *kase, attempt int, last bool) bool {
 		rn := &runner{k: k, key: fmt.Sprintf("k%d_%d_%d", seed, i, attempt), locks: map[int]lock.DistributedLock{}, ctxs: map[int]context.Context{},
-			kids: map[int]context.Context{}, started: map[int]time.Time{},
+			kids: map[int]context.Context{}, started: map[int]time.Time{}, expired: map[int]bool{},
+			actx: map[int]context.Context{}, acancel: map[int]context.CancelFunc{},
 			pending: map[int]chan asyncRes{}, leases: map[int]clientv3.LeaseID{}, seen: map[clientv3.LeaseID]bool{}, revoked: map[int]time.Time{},
 			unlocked: map[int]bool{}}
 		if k.Backend == "redis" {
